@@ -1,16 +1,162 @@
 package main
 
 import (
+	"archive/tar"
+	"bytes"
+	"fmt"
+	"io"
+	"os"
+	"strconv"
+	"strings"
+
 	"verifharness/internal/h"
 )
+
+// The oracles state the properties directly against the real code.  They are the *search*
+// for a failing input; the theorems are what decides the property on the model.
+
+type hookState struct {
+	fails []OracleFail
+}
 
 // oracleHook returns the per-call hook that evaluates the property oracles which need the
 // live instance (rebuild/reopen comparison, fetch by position, ...).
 func oracleHook(o fsOpts, dir string) func(i int, s *h.Session, st *h.Step) {
-	return nil
+	if len(o.oracles) == 0 {
+		return nil
+	}
+	return func(i int, s *h.Session, st *h.Step) {
+		for _, p := range o.oracles {
+			var msgs []string
+			switch p {
+			case "C04":
+				msgs = oracleC04(s, st)
+			}
+			for _, m := range msgs {
+				st.OracleMsgs = append(st.OracleMsgs, p+"\x00"+m)
+			}
+		}
+	}
 }
 
-// judgeOracles evaluates the oracles that compare the implementation with the model's
-// reference outputs, and classifies failures against the triggers the model reported.
+// judgeOracles turns oracle messages into failures and classifies them against the
+// triggers the model reported for the history so far.
 func judgeOracles(o fsOpts, hist *h.History, m []h.ModelStep, res *result) {
+	fired := []string{}
+	calls := []string{}
+	for i, st := range hist.Steps {
+		calls = append(calls, st.Env, st.Call.Line())
+		if i < len(m) {
+			for _, t := range m[i].Trig {
+				if !has(fired, t) {
+					fired = append(fired, t)
+				}
+			}
+		}
+		for _, p := range o.oracles {
+			res.OracleChecks[p]++
+		}
+		for _, pm := range st.OracleMsgs {
+			parts := strings.SplitN(pm, "\x00", 2)
+			f := OracleFail{Property: parts[0], Hist: hist.ID, Step: i, What: parts[1], Triggers: append([]string{}, fired...),
+				Calls: append([]string{}, calls...)}
+			f.Known = o.known.Explain(parts[0], fired)
+			if f.Known != "" {
+				res.KnownHits[f.Known]++
+			}
+			res.OracleFails = append(res.OracleFails, f)
+			break // one failure per step and property is enough
+		}
+	}
+}
+
+// ---------------------------------------------------------------------------------------
+// C04: every row's positions are record starts; block < record size; content position is not
+// after the last-known position; the record at a live regular row's content position holds
+// the entry's content; the largest last-known position is the final record of the tape.
+func oracleC04(s *h.Session, st *h.Step) []string {
+	e := s.E
+	rs := int64(e.Cfg.RS)
+	items, _, err := h.ScanTape(e.Drive, 0)
+	if err != nil {
+		return []string{"scan: " + err.Error()}
+	}
+	starts := map[int64]h.TapeItem{}
+	last := int64(-1)
+	for _, it := range items {
+		if !it.Trailer && it.HB > 0 {
+			starts[it.Block] = it
+			last = it.Block
+		}
+	}
+	var msgs []string
+	maxLK := int64(-1)
+	rows := 0
+	for _, l := range st.Obs {
+		if !strings.HasPrefix(l, "row\t") {
+			continue
+		}
+		rows++
+		f := strings.Split(l, "\t")
+		name := h.DecName(f[1])
+		tf, _ := strconv.ParseInt(f[3], 10, 64)
+		size, _ := strconv.ParseInt(f[4], 10, 64)
+		rec, _ := strconv.ParseInt(f[5], 10, 64)
+		blk, _ := strconv.ParseInt(f[6], 10, 64)
+		lkr, _ := strconv.ParseInt(f[7], 10, 64)
+		lkb, _ := strconv.ParseInt(f[8], 10, 64)
+		del := f[9] == "1"
+		if blk < 0 || blk >= rs || lkb < 0 || lkb >= rs {
+			msgs = append(msgs, fmt.Sprintf("row %q: block component out of range (block=%d lastknownblock=%d rs=%d)", name, blk, lkb, rs))
+		}
+		b := rs*rec + blk
+		lb := rs*lkr + lkb
+		if lb > maxLK {
+			maxLK = lb
+		}
+		if b > lb {
+			msgs = append(msgs, fmt.Sprintf("row %q: content position %d after last-known position %d", name, b, lb))
+		}
+		it, ok := starts[b]
+		if !ok {
+			msgs = append(msgs, fmt.Sprintf("row %q: (record=%d, block=%d) is not the start of a record", name, rec, blk))
+			continue
+		}
+		if _, ok := starts[lb]; !ok {
+			msgs = append(msgs, fmt.Sprintf("row %q: last-known (%d,%d) is not the start of a record", name, lkr, lkb))
+		}
+		if del || tf != int64(tar.TypeReg) {
+			continue
+		}
+		// the record at the content position must carry this entry's current content
+		if e.Cfg.Compression == "" && e.Cfg.Encryption == "" && e.Cfg.Signature == "" {
+			if it.Stored != size && !(it.Stored == 0 && size == 0) {
+				msgs = append(msgs, fmt.Sprintf("row %q: size %d but the record at its position stores %d bytes", name, size, it.Stored))
+				continue
+			}
+			want, err := s.Cat(name)
+			if err != nil {
+				continue // unreadable through the API: other properties' business
+			}
+			got, err := readAt(e.Drive, (it.Block+it.HB)*512, it.Stored)
+			if err != nil || !bytes.Equal(got, want) {
+				msgs = append(msgs, fmt.Sprintf("row %q: bytes at its content position differ from what the filesystem reads", name))
+			}
+		}
+	}
+	if rows > 0 && last >= 0 && maxLK != last {
+		msgs = append(msgs, fmt.Sprintf("largest last-known position is block %d but the final record of the tape is at block %d", maxLK, last))
+	}
+	return msgs
+}
+
+func readAt(path string, off, n int64) ([]byte, error) {
+	f, err := os.Open(path)
+	if err != nil {
+		return nil, err
+	}
+	defer f.Close()
+	buf := make([]byte, n)
+	_, err = io.ReadFull(io.NewSectionReader(f, off, n), buf)
+	return buf, err
 }
